@@ -3,7 +3,9 @@
 E4 (vmc/hashctl.py): for every script the hash values of the library's model objects are enumerated - all |N|!
 assignments for scripts with <= 6 hash-relevant names, every ordered pair (thorough: triple) of names at the front of
 the order beyond that - and the full public observation must be the same under all of them. In addition: all 24
-orders of {source_tables, get_column_lineage, to_cytoscape, str} with every accessor called twice on one runner;
+orders of {source_tables, get_column_lineage, to_cytoscape, str} with every accessor called twice on one runner (for
+scripts that raise: every call must raise what a fresh runner raises); every ordered pair / triple of the flag variants
+of get_column_lineage and the column-level export on one runner against a fresh runner per variant;
 the same script analysed repeatedly in one process and on one reused provider; and, as conformance of the hash model
 to real processes, subprocesses with different PYTHONHASHSEED whose observation must lie in the outcome set E4 found.
 """
@@ -51,6 +53,9 @@ SCRIPTS = [
     ("multi-write-error", "postgres", "insert into a select x into b from c", None),
     ("case-subquery", "ansi", "insert into t select case when (select max(a) from s1) > 0 then (select max(b) from s2) else 0 end as c, d from s3", None),
     ("tsql-batch", "tsql", "select a into t1 from s1; insert into t2 select a from t1 join s2 on 1 = 1", None),
+    ("unused-subquery-column", "ansi", "insert into t select s.a from (select a, extra from x) s; with c as (select p, q from y) insert into u select p from c", None),
+    ("unsupported-midway", "ansi", "insert into t select a from x; grant select on t to u1; insert into v select a from t", None),
+    ("syntax-error-midway", "ansi", "insert into t select a from x; select from where; insert into v select a from t", None),
 ]
 
 
@@ -109,6 +114,51 @@ ACCESSORS = {
     "to_cytoscape": lambda r: observe.cyto_canon(r.to_cytoscape()),
     "str": lambda r: observe.Anon()(str(r)),
 }
+_PATHS = lambda r, **kw: sorted([observe.col_str(c, observe.Anon()) for c in p] for p in r.get_column_lineage(**kw))  # noqa: E731
+# the same accessor under its other flag settings: what one call computed must not leak into a call with other flags
+FLAG_ACCESSORS = {
+    "get_column_lineage": ACCESSORS["get_column_lineage"],
+    "paths(keep-subquery-ends)": lambda r: _PATHS(r, exclude_path_ending_in_subquery=False),
+    "paths(no-subquery-columns)": lambda r: _PATHS(r, exclude_subquery_columns=True),
+    "paths(keep-ends,no-subquery-columns)": lambda r: _PATHS(r, exclude_path_ending_in_subquery=False, exclude_subquery_columns=True),
+    "cytoscape(column)": lambda r: observe.cyto_canon(r.to_cytoscape(level=__import__("sqllineage.utils.constant", fromlist=["LineageLevel"]).LineageLevel.COLUMN)),
+}
+
+
+def _call(f, r):
+    """an accessor's answer, or the class of the exception it raises"""
+    try:
+        return json.dumps(f(r), sort_keys=True, default=str)
+    except Exception as e:  # noqa
+        return "raises " + type(e).__name__
+
+
+def flag_orders(item):
+    """every ordered pair and triple of flag variants on one runner, against each variant's answer on a fresh runner;
+    for scripts that raise: every order of the four basic accessors, each call must raise what a fresh runner raises"""
+    bad = []
+    n = 0
+    base = {k: _call(f, make(item)) for k, f in FLAG_ACCESSORS.items()}
+    for order in itertools.chain(itertools.permutations(FLAG_ACCESSORS, 2), itertools.permutations(list(FLAG_ACCESSORS)[:4], 3)):
+        r = make(item)
+        for k in order:
+            n += 1
+            got = _call(FLAG_ACCESSORS[k], r)
+            if got != base[k]:
+                bad.append({"order": list(order), "accessor": k, "fresh_runner": base[k][:300], "this_runner": got[:300]})
+                break
+    base2 = {k: _call(f, make(item)) for k, f in ACCESSORS.items()}
+    if any(v.startswith("raises ") for v in base2.values()):
+        for order in itertools.permutations(ACCESSORS):
+            r = make(item)
+            for k in order:
+                for rep_ in (1, 2):
+                    n += 1
+                    got = _call(ACCESSORS[k], r)
+                    if got != base2[k]:
+                        bad.append({"order": list(order), "accessor": k, "call": rep_, "fresh_runner": base2[k][:300], "this_runner": got[:300]})
+                        break
+    return n, bad[:3]
 
 
 def accessor_orders(item):
@@ -171,6 +221,9 @@ def _eval(task):
         if first != o1:
             rep_bad.append("reused provider differs from a fresh provider")
     n_acc, acc_bad = accessor_orders(item)
+    n_flag, flag_bad = flag_orders(item)
+    n_acc += n_flag
+    acc_bad = acc_bad + flag_bad
     return {
         "names": len(names), "assignments": n, "outcomes": outcomes, "mode": "full" if len(names) <= full_limit else f"front-{front}",
         "examples": {d: {"assignment": a, "observation": {k: o.get(k) for k in ("source", "target", "intermediate", "pairs", "exception")}} for d, (a, o) in list(first_by_outcome.items())[:3]},
